@@ -153,7 +153,7 @@ PROPS = {
         level_text="Generated scripts biased towards <<stop>> inside nested bodies with statements remaining and towards ends right after option groups are driven "
                    "to the first end; 1-6 further Next calls with arbitrary arguments (0, in range, out of range, negative, huge) must each return (nil, nil) "
                    "without panic, storer write, host-function call or command dispatch. Search, not proof.",
-        level_note="Only runs whose trace up to the end agrees with the reference interpreter are used (anything else is C01's business and is discarded, counted).",
+        level_note="The runner is driven until it reports the end itself (runs without an end inside the element limit are discarded, counted); the reference interpreter only classifies how the end was reached.",
         rule="acyclic scripts (forward jumps only, so every run ends) x choices x 1-6 arguments for the calls after the end; non-trivial = end by stop with "
              "statements remaining or inside a nested body, or end directly after an option group; distinct = distinct serialised cases.",
         assumptions=["'until a snapshot is restored' is C07's business"],
